@@ -12,9 +12,11 @@ mod c03;
 mod c04;
 mod c19;
 mod c20;
+mod c20e;
 mod c06;
 mod c07;
 mod c17;
+mod c11;
 mod c15;
 mod c18;
 mod session;
@@ -35,10 +37,12 @@ fn dispatch(prop: &str, case: &str) -> String {
         "C03" => c03::run(case),
         "C04" => c04::run(case),
         "C19" => c19::run(case),
+        "C20" if case.starts_with("E~") => c20e::run(case),
         "C20" => c20::run(case),
         "C06" => c06::run(case),
         "C07" => c07::run(case),
         "C17" => c17::run(case),
+        "C11" => c11::run(case),
         "C15" => c15::run(case),
         "C18" => c18::run(case),
         _ => "error:unknown-property".into(),
